@@ -178,7 +178,12 @@ func c14Reassemble(pieces []*c14Piece, stripDONL bool) ([][]byte, []int, error) 
 }
 
 // c14Wide: dimensions the product scenario keeps small, taken one at a time.
+// c14Decoy makes c14Core use an unrelated second payloader first.
+var c14Decoy bool
+
 func c14Wide(c *mc.Ctx) {
+	c14Decoy = c.Bool()
+	defer func() { c14Decoy = false }()
 	addDONL := c.Bool()
 	skipAgg := c.Bool()
 	var units [][]byte
@@ -294,15 +299,20 @@ func c14Core(c *mc.Ctx, mtu int, addDONL, skipAgg bool, units [][]byte, codes []
 		}
 		return s
 	}
-	in := ref.AnnexB(units, codes)
-	keep := clone(in)
+	keep := ref.AnnexB(units, codes)
+	in, intact := guard(keep)
 	pl := &codecs.H265Payloader{AddDONL: addDONL, SkipAggregation: skipAgg}
+	if c14Decoy {
+		// an unrelated second payloader that has already numbered a few units
+		dp := &codecs.H265Payloader{AddDONL: true, SkipAggregation: !skipAgg}
+		dp.Payload(uint16(maxI(mtu, 8)), ref.AnnexB([][]byte{ref.H265Unit(32, 0, 1, 5, 1), ref.H265Unit(33, 0, 1, 4, 2), ref.H265Unit(19, 0, 1, 40, 3)}, []int{4, 3, 4}))
+	}
 	payloads := cloneAll(pl.Payload(uint16(mtu), in))
 	c.Ops(1)
 	if c.Verbose() {
 		c.Notef("%s -> %s", desc(), hxs(payloads))
 	}
-	if !bytes.Equal(in, keep) {
+	if !bytes.Equal(in, keep) || !intact() {
 		c.Failf("input-modified", "%s: Payload changed its input", desc())
 	}
 	var pieces []*c14Piece
